@@ -108,6 +108,18 @@ void h_where_122(void){
     ASSERT(out == (dc[bsrc(sc, 1, idx, 2)] ? dx[bsrc(sx, 2, idx, 2)] : dy[bsrc(sy, 2, idx, 2)]), "element i == c[bcast i] ? x[bcast i] : y[bcast i]"); }
   OBS(r); OBS(out); REACHED();
 }
+void h_where_mixed(void){
+  u64 sc[1], idx[4], os[4] = {0}, od = 0, out = 0; u32 dc[4], dx[4];
+  in_shape(sc, 1); in_data(dc, MAXE); in_data(dx, MAXE); i64 y = (i64)in_bits(); in_index(idx, sc, 1, 1);
+#ifdef KF_C07_WHERE_SCALAR
+  /* known finding (props/C07.py PENDING_FINDINGS): a scalar operand of where is converted to the other branch's element type (here long -> int) */
+  ASSUME(y == (i64)(i32)y);
+#endif
+  int r = k_where_mixed(sc, dc, dx, (u64)y, idx, 1, os, &od, &out);
+  ASSERT(r == 1 && od == 1 && os[0] == sc[0], "where(c[n], x[n], scalar) has shape (n,)");
+  ASSERT((i64)out == (dc[idx[0]] ? (i64)(i32)dx[idx[0]] : y), "element i == c[i] ? (long)x[i] : y   (element type long = common type of int and long)");
+  OBS(out); REACHED();
+}
 void h_clip_sss(void){
   u32 t = in_any32(), lo = in_any32(), hi = in_any32();
   u32 r = k_clip_sss(t, lo, hi);
